@@ -306,4 +306,44 @@ def calcPR (tab : List ((String × String) × α)) (search : Bool) (gs : List (G
       else { x := c.x, p := c.x * p, lnphi := lnPhi rt m.bsum m.asum p vm c.b aa2 }
     some { vm := vm, p := p, bsum := m.bsum, asum := m.asum, comps := outs }
 
+/-! ## `calc_PR()` of gases.cpp (numerical fixed-volume path, called by `calc_fixed_volume_gas_pressures`) -/
+
+/-- `P = 0; while (P <= 0) { P = EOS(V_m); if (P <= 0) V_m *= 2.0; }` — the molar volume is doubled until the
+Peng–Robinson pressure is positive, and the doubled value is the one stored in the gas phase -/
+def doubleLoop (rt b a : α) : Nat → α → α × α
+  | 0, v => (prP rt b a v, v)
+  | fuel + 1, v =>
+    let p := prP rt b a v
+    if p ≤ lit 0 then doubleLoop rt b a fuel (v * lit 2) else (p, v)
+
+/-- the search part of `pOfVm` applied to an already computed pressure `p0` -/
+def searchP (search : Bool) (rt b a v p0 : α) : α :=
+  if search && decide (p0 < lit 150) && decide (v < lit (101 / 100)) then
+    let c := cubicOf rt b a p0
+    if lit 0 < c.disct then
+      let f := fVm rt b a
+      let v0 : α := lit (729 / 1000)
+      let s := searchLoop f 40 { v1 := v0, vinit := v0, dpdv := f v0, it := 0, halved := false }
+      if v < s.v1 && s.it < 40 then prP rt b a s.v1 else p0
+    else p0
+  else p0
+
+/-- `calc_PR()`: mole fractions `moles / m_sum` over all gas unknowns, `V_m = volume / m_sum`, doubling loop,
+three-root search, fugacity coefficients; `none` = `m_sum == 0` -/
+def calcPRnum (tab : List ((String × String) × α)) (search : Bool) (gs : List (Gas α)) (moles : List α)
+    (vol tk : α) : Option (Out α) :=
+  let msum := moles.foldl (fun acc m => acc + m) (lit 0)
+  if isZero msum then none else
+  let xs := moles.map fun m => m / msum
+  let cs := comps tk gs xs
+  let m := mix (binaryFactor tab) cs
+  let rt := gasR * tk
+  let (p0, vm) := doubleLoop rt m.bsum m.asum 2200 (vol / msum)
+  let p := searchP search rt m.bsum m.asum vm p0
+  let p := if p ≤ lit 0 then lit 1 else p
+  let outs := (cs.zip m.aa2).map fun (c, aa2) =>
+    if isZero c.x then ({ x := c.x, p := lit 0, lnphi := lit 0 } : CompOut α)
+    else { x := c.x, p := c.x * p, lnphi := lnPhi rt m.bsum m.asum p vm c.b aa2 }
+  some { vm := vm, p := p, bsum := m.bsum, asum := m.asum, comps := outs }
+
 end PhreeqcVerif.PR
